@@ -9,7 +9,8 @@ p,old,new=sys.argv[1:4]
 s=open(p).read()
 n=len(re.findall(old,s))
 if n!=1: print("PATTERN MATCHES",n); sys.exit(9)
-open(p,'w').write(re.sub(old,new.replace('\\','\\\\'),s,count=1))
+new=new.encode().decode('unicode_escape')
+open(p,'w').write(re.sub(old,lambda m:new,s,count=1))
 PY
 cd /verif && MICI_REPO=$D ./check $1 2>&1 | grep -v WARNING | grep -v "^  " | cut -c1-300 | tail -8
 rm -rf $D
